@@ -35,6 +35,10 @@ func register(p *Property) {
 		// error discipline of the functions the rule set has read (S-ERRFLOW)
 		sErrFlow(c)
 	}
+	if cls := errflowPropClasses[p.ID]; len(cls) > 0 {
+		p.Explanation += " S-ERRFLOW: in the functions these rules read, every call into the property's fault layers (" + strings.Join(cls, ", ") + ") whose failure left the function in the pinned tree (error returned, or the non-nil branch returns/panics/continues) still does – no failed call is followed by the code that runs after its success (dispositions from def-use chains and CFG reachability, frozen per (function, callee) in baseline/errflow.json)."
+		p.RuleText += " RE/S-ERRFLOW: one obligation per (function, callee) group of the frozen error-disposition table that is strict in the baseline, relevant to the property's fault classes and located in a function the rule set reads."
+	}
 	Registry[p.ID] = p
 }
 
